@@ -8,7 +8,8 @@ HARNESS = {"src": "harness/c15.cpp", "repo_srcs": [
     "libs/core/src/narrow_locale.cpp", "libs/core/src/widen_locale.cpp", "libs/core/src/from_std_wstring_locale.cpp",
     "libs/core/src/to_std_wstring_locale.cpp", "libs/core/src/from_std_string_locale.cpp", "libs/core/src/to_std_string_locale.cpp",
     "libs/core/src/narrow.cpp", "libs/core/src/widen.cpp", "libs/core/src/string_conv_locale.cpp", "libs/core/src/from_std_wstring.cpp",
-    "libs/core/src/to_std_wstring.cpp",
+    "libs/core/src/to_std_wstring.cpp", "libs/core/src/from_std_string.cpp", "libs/core/src/to_std_string.cpp",
+    "libs/core/src/io/read_chars.cpp", "libs/core/src/io/write_chars.cpp",
 ]}
 TIE = "hand-written model (FcpptModel/Model/C15/*.lean) + differential correspondence against the real templates and .cpp files"
 RULE = ("One op = one call sequence of the real code with one canonical result line; digest ops (bins / rtds / nws) enumerate a range on "
@@ -114,7 +115,8 @@ def all_strings(alpha, maxlen):
 
 NUM_DESTS = ["u16", "i16", "u32", "i32", "u64", "i64"]
 CHAR_DESTS = ["c8", "u8", "i8"]
-ENUMS = {1: ["test1", "test2", "test3"], 2: ["foo", "bar", "baz", "fo", "foobar"], 3: ["a", "b", "a"], 4: ["only"]}
+ENUMS = {1: ["test1", "test2", "test3"], 2: ["foo", "bar", "baz", "fo", "foobar"], 3: ["a", "b", "a"], 4: ["only"],
+         5: ["", "a b", "x\x00y", " z", "x", "a"]}
 VEC_TYPES = ["i32", "i64", "u16", "u32"]
 
 
@@ -308,6 +310,8 @@ def weight(op):
         return int(t[4])
     if t[0] == "nws":
         return int(t[2])
+    if t[0] == "toys":
+        return sum(6 ** k for k in range(int(t[5]) + 1))
     return 1
 
 
@@ -322,7 +326,37 @@ def refine(op):
     if t[0] == "nws":
         lo, n = int(t[1]), int(t[2])
         return [f"nw {c:08x}" for c in range(lo, lo + n)]
+    if t[0] == "toys":
+        wide = t[1] == "out"
+        return [f"toy {t[1]} {t[2]} {t[3]} {t[4]} " + (whx(w) if wide else hexs(w)) for w in toy_inputs(int(t[5]))]
+    if t[0] == "bst" and "," in t[1]:
+        # every proper prefix of the script: the first step whose result differs
+        steps = t[1].split(",")
+        return ["bst " + ",".join(steps[:k]) for k in range(1, len(steps))]
+    if t[0] == "tst" and "," in t[3]:
+        steps = t[3].split(",")
+        return [f"tst {t[1]} {t[2]} " + ",".join(steps[:k]) for k in range(1, len(steps))]
     return None
+
+
+TOY_ALPHABET = [0x01, 0x02, 0x03, 0x0F, 0xEE, 0xFD]
+
+
+def toy_inputs(maxlen):
+    out = []
+    for n in range(maxlen + 1):
+        for i in range(6 ** n):
+            out.append([TOY_ALPHABET[i // 6 ** (n - 1 - k) % 6] for k in range(n)])
+    return out
+
+
+def seqs(alpha, maxlen, minlen=1):
+    out, layer = [], [[]]
+    for n in range(1, maxlen + 1):
+        layer = [w + [c] for w in layer for c in alpha]
+        if n >= minlen:
+            out += layer
+    return out
 
 
 def batches(rng, tier):
@@ -473,6 +507,193 @@ def batches(rng, tier):
             text = text[:r.below(len(text) + 1)]
         ops.append(f"vin {ty} {r.choice([n, n, n, r.range(1, 4)])} {hx(text)}")
     yield Batch("vector-input-malformed", ops, note="mutated vector texts: missing/extra characters, whitespace, out-of-range elements, truncated text, wrong dimension")
+
+    # ---------------------------------------------------------------- every other arithmetic type; one stream object
+    r = rng.fork("bin-more")
+    ops = ["bins b1 L 0 2", "bins b1 B 0 2", "bin b1 L 0", "bin b1 B 1", "seq b1 B 1,0,1", "seq b1 L -"]
+    for ty, lo in (("ch", -128), ("c8t", 0)):
+        for e in "LB":
+            ops.append(f"bins {ty} {e} {lo} 256")
+    for e in "LB":
+        for a in range(0, 65536, 2048):
+            ops.append(f"bins c16 {e} {a} 2048")
+    for ty, like in (("wc", "i32"), ("c32", "u32"), ("ll", "i64"), ("ull", "u64")):
+        for e in "LB":
+            for v in lattice(like):
+                ops.append(f"bin {ty} {e} {v}")
+            for _ in range(3000 if thorough else 300):
+                ops.append(f"bin {ty} {e} {rand_val(r, like)}")
+            size = INT_TYPES[like][0] // 8
+            for n in range(0, 2 * size + 2):
+                ops.append(f"rd {ty} {e} " + hexs([r.below(256) for _ in range(n)]))
+    yield Batch("bin-more-types", ops, exhaustive=True,
+                note="bool (both values), char / char8_t / char16_t exhaustively, wchar_t / char32_t / long long / unsigned long long on the lattice + random: the same write / read / swap / convert line as for the fixed-width types")
+    steps = ["w.u8.L.1", "w.u16.B.513", "r.u8.L", "r.u16.B", "r.u16.L", "p", "c", "wc.0a0b", "rc.1", "rc.0", "rc.2"]
+    ops = ["bst " + ",".join(sq) for sq in seqs(steps, 4 if thorough else 3)]
+    # the four-step scripts that matter most in the quick tier: a failure in the middle, then clear, then traffic again
+    if not thorough:
+        for a in ("r.u16.B", "rc.2", "r.u8.L"):
+            for b in ("c", "p", "w.u8.L.1"):
+                for c_ in steps:
+                    for d in ("r.u8.L", "rc.1", "r.u16.L", "wc.0a0b"):
+                        ops.append(f"bst w.u8.L.1,{a},{b},{c_},{d}")
+    all_ty = list(INT_TYPES) + list(FLT_TYPES) + ["ch", "wc", "c8t", "c16", "c32", "ll", "ull"]
+    like_of = {"ch": "i8", "wc": "i32", "c8t": "u8", "c16": "u16", "c32": "u32", "ll": "i64", "ull": "u64"}
+    for _ in range(20000 if thorough else 2500):
+        # values of mixed types and byte orders through one stream, read back with the same / other types, failures, clear
+        n = r.range(1, 6)
+        ws = [(r.choice(all_ty), r.choice("LB")) for _ in range(n)]
+        script = [f"w.{ty}.{e}.{rand_val(r, like_of.get(ty, ty))}" for ty, e in ws]
+        k = r.below(5)
+        if k == 0:      # read back exactly what was written, one read too many
+            script += [f"r.{ty}.{e}" for ty, e in ws] + [f"r.{r.choice(all_ty)}.L"]
+        elif k == 1:    # same sizes, other byte order / other type of the same size
+            script += [f"r.{ty}.{'L' if e == 'B' else 'B'}" for ty, e in ws]
+        elif k == 2:    # interleaved
+            script = [x for ty_e, w in zip(ws, script) for x in (w, f"r.{ty_e[0]}.{ty_e[1]}")]
+            script.insert(r.below(len(script) + 1), r.choice(["p", "c", "rc.1", "wc.ff", f"r.{r.choice(all_ty)}.B"]))
+        elif k == 3:    # fail, clear, go on
+            script += [f"r.{r.choice(all_ty)}.{r.choice('LB')}" for _ in range(r.range(1, 8))]
+            script += ["c", f"w.u32.B.{r.below(1 << 32)}", "r.u32.B", "r.u8.L"]
+        else:
+            script += [r.choice([f"r.{r.choice(all_ty)}.{r.choice('LB')}", "p", "c", f"rc.{r.below(5)}", "wc." + hexs([r.below(256) for _ in range(r.range(1, 3))])])
+                       for _ in range(r.range(1, 8))]
+        ops.append("bst " + ",".join(script))
+    yield Batch("bin-stream-scripts", ops, exhaustive=True,
+                note="io::write / io::read / write_chars / read_chars / peek / clear on ONE std::stringstream: every script of up to 3 (thorough: 4) steps over 11 steps, failure-then-clear scripts, seeded scripts with mixed types and byte orders; the state bits are printed after every step")
+
+    # ---------------------------------------------------------------- bool, strings, other locales, the stream helpers
+    ops = ["rtb N 0", "rtb N 1", "rtb W 0", "rtb W 1"]
+    small_b = all_strings(" -+012x", 4)
+    for t_ in small_b:
+        ops.append(f"efb N {hx(t_)}")
+    for t_ in all_strings(" -012", 3):
+        ops.append(f"efb W {hx(t_)}")
+    for t_ in ["00", "01", "001", "10", "-1", "+1", "-0", "99999999999999999999", "-99999999999999999999", "1x", "1 ", " 1", "\t0", "true", "false"]:
+        ops.append(f"efb N {hx(t_)}")
+    words = all_strings(" ab\n", 5)
+    for t_ in words:
+        ops.append(f"efstr N {hx(t_)}")
+        ops.append(f"rtstr N {hx(t_)}")
+    for t_ in all_strings(" a€", 3):
+        ops.append("efstr W " + whx([ord(c) for c in t_]))
+        ops.append("rtstr W " + whx([ord(c) for c in t_]))
+    for t_ in ["\x00", "a\x00b", "\x00 ", "\x80\xff", "\t\v\f\r", "a\tb", "a\x0bb"]:
+        ops.append(f"rtstr N {hx(t_)}")
+    yield Batch("text-bool-string", ops, exhaustive=True,
+                note="extract_from_string<bool> on every text over {space,-,+,0,1,2,x} up to length 4; extract_from_string<std::(w)string> and the output/extract round trip on every text over {space,a,b,newline} up to length 5 (strings round-trip iff non-empty and free of white space)")
+    ops = []
+    for ty in NUM_DESTS:
+        for v in lattice(ty):
+            ops.append(f"otsl {ty} {v}")
+        for k in range(0, 21):
+            for v in (10 ** k - 1, 10 ** k, -(10 ** k), -(10 ** k) + 1):
+                lo, hi = trange(ty)
+                if lo <= v <= hi:
+                    ops.append(f"otsl {ty} {v}")
+        for _ in range(3000 if thorough else 300):
+            ops.append(f"otsl {ty} {rand_val(r, ty)}")
+        for t_ in all_strings("x 1-", 4):
+            ops.append(f"efsx {ty} {hx(t_)}")
+        for t_ in ["xx 12", "x\t-7x", "12x", "x", "xxxx", " x x 1", "1x2", "x+5", "y5"]:
+            ops.append(f"efsx {ty} {hx(t_)}")
+    yield Batch("text-other-locales", ops, exhaustive=True,
+                note="the locale argument is really imbued: output_to_string_locale with a grouping numpunct (and back through the same locale) on the lattice, every power of ten and random values; extract_from_string_locale with a ctype<char> in which 'x' is white space on every text over {x,space,1,-} up to length 4")
+    tsteps = ["g", "p", "xc", "xs", "xb", "xi32", "xu16", "e31", "c"]
+    ops = []
+    for t_ in all_strings(" 1a-", 3):
+        for sq in seqs(tsteps, 3 if thorough else 2):
+            ops.append(f"tst N {hx(t_)} " + ",".join(sq))
+    if not thorough:
+        for t_ in ["1 a", " 1", "11", "a", "-1 ", ""]:
+            for sq in seqs(tsteps, 3, 3):
+                ops.append(f"tst N {hx(t_)} " + ",".join(sq))
+    for _ in range(10000 if thorough else 1500):
+        text = "".join(r.choice(" \n1270-+ax(),") for _ in range(r.range(0, 8)))
+        sq = [r.choice(tsteps + ["xi16", "xu32", "xi64", "xu64", "e28", "e2c", "e29", "e20"]) for _ in range(r.range(1, 7))]
+        if r.chance(1, 4):
+            ops.append("tst W " + whx([ord(c) for c in text] + ([0x20AC] if r.chance(1, 3) else [])) + " " + ",".join(sq))
+        else:
+            ops.append(f"tst N {hx(text)} " + ",".join(sq))
+    yield Batch("stream-steps", ops, exhaustive=True,
+                note="fcppt::io::get / peek / extract<char|string|bool|int|unsigned short> / expect / clear on ONE input stream: every sequence of up to 2 (thorough: 3) steps on every text over {space,1,a,-} up to length 3, all 3-step sequences on six texts, seeded longer ones (also wide); state bits after every step")
+    ops = ["literals"]
+    for t_ in ["", "a", "a\xc3\xa4", "\x00", "a\x00b", "\xff\xfe", " a b "]:
+        ops.append("strconv " + hx(t_))
+    for _ in range(200):
+        ops.append("strconv " + hexs([r.below(256) for _ in range(r.range(1, 12))]))
+    yield Batch("string-conv-identity", ops, note="from_std_string(_locale) / to_std_string(_locale) / output_to_fcppt_string are the identity for a narrow fcppt::string, with any bytes and any locale; FCPPT_STRING_LITERAL / FCPPT_CHAR_LITERAL pick the literal of the requested width")
+    # ---------------------------------------------------------------- enums with odd names, wide streams, enum arrays, matrices
+    ops = []
+    for k, names in ENUMS.items():
+        for e in range(len(names)):
+            ops.append(f"enumw {k} {e}")
+        ops.append(f"earr {k} " + ",".join(str(7 * i - 3) for i in range(len(names))))
+        ops.append(f"earr {k} " + ",".join(str(r.choice([-(1 << 31), (1 << 31) - 1, 0, -1])) for i in range(len(names))))
+    for k in (3, 5):
+        for t_ in all_strings(" ab\nx", 5 if thorough else 4):
+            ops.append(f"ein {k} {hx(t_)}")
+    for t_ in all_strings(" ax\x00y", 4):
+        ops.append(f"ein 5 {hx(t_)}")
+    for t_ in all_strings(" fo€", 3):
+        ops.append("einw 2 " + whx([ord(c) for c in t_]))
+    for t_ in ["a b", "a b x", "x\x00y", " z", "z", "x a b", "a\x00", "\x00a", "a\nb", "a  b"]:
+        ops.append(f"ein 5 {hx(t_)}")
+        ops.append("einw 5 " + whx([ord(c) for c in t_]))
+    yield Batch("enum-odd-names-wide", ops, exhaustive=True,
+                note="an enum with an empty name, a blank inside a name, an embedded NUL, a leading blank and names that are prefixes of each other; stream input on every text over {space,a,b,newline,x} up to length 4 (thorough: 5) and over {space,a,x,NUL,y} up to 4; the variable handed to input() is printed (unchanged on failure); wide streams; enum_::array output")
+    ops = []
+    for ty in VEC_TYPES:
+        lo, hi = trange(ty)
+        alpha = sorted({lo, -1 if lo < 0 else 1, 0, 10, hi})
+        for rr, cc in ((1, 1), (1, 2), (2, 1), (2, 2)):
+            for vs in seqs(alpha, rr * cc, rr * cc):
+                ops.append(f"mat {ty} {rr} {cc} " + ",".join(map(str, vs)))
+        for rr, cc in ((1, 3), (3, 1), (2, 3), (3, 2), (3, 3)):
+            for _ in range(200 if thorough else 40):
+                ops.append(f"mat {ty} {rr} {cc} " + ",".join(str(r.choice(alpha + [rand_val(r, ty)])) for _ in range(rr * cc)))
+        for n in range(1, 4):
+            for vs in seqs(alpha, n, n):
+                ops.append(f"vecw {ty} {n} " + ",".join(map(str, vs)))
+    short = all_strings("(),1 ", 7 if thorough else 6)
+    for t_ in short:
+        ops.append(f"vinm i32 1 {hx(t_)}")
+    for t_ in all_strings("(),1 ", 5):
+        ops.append(f"vinw i32 2 {hx(t_)}")
+    for _ in range(6000 if thorough else 800):
+        ty = r.choice(VEC_TYPES)
+        n = r.range(1, 3)
+        parts = []
+        for _ in range(r.range(1, 4)):
+            parts.append(r.choice(["", "", " ", "\n"]) + "(" + ",".join(r.choice(["", " "]) + str(rand_val(r, ty)) + r.choice(["", "", " "]) for _ in range(n)) + r.choice([")", ")", ")", "", " )"]))
+        ops.append(f"vinm {ty} {n} {hx(''.join(parts))}")
+    yield Batch("matrix-vector-streams", ops, exhaustive=True,
+                note="matrix output (all 1x1..2x2 over {min,-1|1,0,10,max}, seeded larger ones; narrow = wide), vector output/input through wide streams, several vectors from one stream: every text over {( ) , 1 space} up to length 6 (thorough: 7) read repeatedly")
+
+    # ---------------------------------------------------------------- the loop of impl::codecvt over scripted facets
+    ops = []
+    for d in ("in", "out"):
+        for f in range(16):
+            for m in (0, 1, 3, 4):
+                for c_ in (0, 1, 2):
+                    ops.append(f"toys {d} {f} {m} {c_} {5 if thorough else 4}")
+    for _ in range(20000 if thorough else 3000):
+        d = r.choice(["in", "out"])
+        n = r.range(1, 40)
+        shape = r.below(4)
+        if shape == 0:
+            units = [r.choice([1, 2, 3, 4, 5, 0x0F, 0x1F]) for _ in range(n)]
+        elif shape == 1:
+            units = [r.choice([2, 5, 8]) for _ in range(n)]             # three output units each: the buffer has to grow
+        elif shape == 2:
+            units = [r.below(256) for _ in range(n)]
+        else:
+            units = [r.choice([1, 2, 3, 0x0F]) for _ in range(n - 1)] + [r.choice([0x0F, 0xEE, 0xFD, 1, 0x2F])]
+        if d == "out" and r.chance(1, 3):
+            units = [u + 256 * r.below(1 << 20) for u in units]
+        ops.append(f"toy {d} {r.below(16)} {r.choice([0, 1, 2, 3, 4, 6, 8])} {r.choice([0, 0, 1, 2, 3, 5, 8])} " + (whx(units) if d == "out" else hexs(units)))
+    yield Batch("codecvt-loop-scripted-facets", ops, exhaustive=True,
+                note="narrow_locale / widen_locale with a facet of the harness' own inside the locale (Model/C15/Toy.lean on both sides): noconv, error, partial with nothing written, ok with input left over, max_length() 0..4 (also untruthful), a state that is non-initial between calls, at most 1 or 2 units per call; every input over {01,02,03,0f,ee,fd} up to length 4 (thorough: 5) x 16 flag sets x 4 max_lengths x 3 chunk sizes x both directions, seeded inputs up to length 40")
 
     # ---------------------------------------------------------------- UTF-8: narrow / widen in C.utf8
     yield Batch("utf8-facet", ["facet"], exhaustive=True, note="max_length() = 6 and always_noconv() = false, as the model assumes")
